@@ -25,7 +25,7 @@ vars == <<sch, cfg, assigned, ev, steps>>
 St == [sch |-> sch, cfg |-> cfg, assigned |-> assigned]
 
 s(t) == StrV(t)
-P == <<"P">>
+P == <<"P", "q">>      \* (a named prefix is used verbatim: mixed case)
 N == <<"N">>
 SSet == IF Big THEN {EnvInherit, EnvAuto, EnvOff, EnvName(P)} ELSE {EnvInherit, EnvAuto, EnvName(P)}
 SSet2 == {EnvInherit, EnvAuto, EnvOff, EnvName(P)}
